@@ -194,12 +194,17 @@ func vpH_C06_tagindex() {
 	}
 	ev := &mocrelay.Event{ID: vpID1, Pubkey: vpPkA, Kind: 1, CreatedAt: 5, Tags: []mocrelay.Tag{t}}
 	rows := buildInsertEventsParamsTags(vpSeed, ev, 99)
+	if len(vpMD5Inputs) == 0 {
+		vpUnsupported("the tag index is not built from an MD5 of the tag: this harness cannot follow it")
+	}
 	vpAssert(len(rows) == 1 && len(vpMD5Inputs) == 1, "C06.tag-indexed-once")
-	insertSide := vpMD5Inputs[0]
-	vpAssert(insertSide == name+value, "C06.tag-index-input-is-name-plus-value")
+	insertSide := vpMD5Inputs[0] // what exactly is hashed is the implementation's choice; both sides must agree
 	vpMD5Inputs = nil
 	_, _, err := buildEventQuery([]*mocrelay.ReqFilter{{Tags: map[string][]string{name: {value}}}}, vpSeed, NoLimit)
 	vpAssert(err == nil, "C06.query-builds")
+	if len(vpMD5Inputs) == 0 {
+		vpUnsupported("the query does not hash the tag condition with MD5: this harness cannot follow it")
+	}
 	vpAssert(len(vpMD5Inputs) == 1, "C06.query-hashes-the-tag-condition")
 	if len(vpMD5Inputs) == 1 {
 		vpAssert(vpMD5Inputs[0] == insertSide, "C06.query-and-insert-hash-the-same-string")
@@ -301,10 +306,9 @@ func vpIsFalseLiteral(sql string) bool {
 	return sql == "0" || sql == "false" || sql == "1=0" || sql == "1 = 0"
 }
 
-// O8: a batch yields one parameter set per storable event, in batch order - also
-// when several events of the batch share a storage key (two versions of one
-// address, the same event twice): choosing the newest is the upsert's job, and
-// it can only do so if every version reaches it.
+// O8: what a batch hands to the statements - also when several events of the batch share
+// a storage key (two versions of one address, the same event twice): the newest version
+// of every address must get through (whether older ones do is the implementation's choice).
 func vpH_C06_batch() {
 	if !vpSymbolic() {
 		vpReach("end")
@@ -340,12 +344,41 @@ func vpH_C06_batch() {
 		}
 	}
 	params := buildInsertEventsParams(vpSeed, batch)
-	vpAssert(len(params) == len(wantIDs), "C06.batch-one-parameter-set-per-storable-event")
+	// what reaches the statements: only storable events of the batch; every storable event
+	// except exact repeats and versions of an address for which the batch holds a version
+	// that is not older (choosing the newest may be done here or left to the upsert)
+	present := map[byte]bool{}
 	for i := range params {
-		if i < len(wantIDs) {
-			idBin, ok := params[i].Events[1].([]byte)
-			d := wantIDs[i][0] - '0'
-			vpAssert(ok && len(idBin) == 32 && idBin[0] == d<<4|d, "C06.batch-order-kept")
+		idBin, ok := params[i].Events[1].([]byte)
+		vpAssert(ok && len(idBin) == 32, "C06.batch-row-shape")
+		if !ok || len(idBin) != 32 {
+			continue
+		}
+		d := idBin[0] & 0x0f
+		found := false
+		for _, e := range batch {
+			if e.ID[0]-'0' == d && e.Kind != 20000 {
+				found = true
+			}
+		}
+		vpAssert(found && idBin[0] == d<<4|d, "C06.batch-only-storable-events-of-the-batch")
+		present[d] = true
+	}
+	for i, e := range batch {
+		if e.Kind == 20000 {
+			continue
+		}
+		covered := false
+		for j, o := range batch {
+			if j == i || o == e {
+				continue
+			}
+			if o.Kind == e.Kind && (e.Kind == 10000 || e.Kind == 30000) && vpDecide(o.CreatedAt >= e.CreatedAt) {
+				covered = true
+			}
+		}
+		if !covered {
+			vpAssert(present[e.ID[0]-'0'], "C06.batch-newest-version-of-every-address-reaches-the-statements")
 		}
 	}
 	vpReach("end")
